@@ -78,6 +78,36 @@ def _ensure_version_module(repo_src):
     return True
 
 
+def _immortalize():
+    """Make every object that exists now immortal (CPython 3.12: reference count field saturated, so INCREF/DECREF
+    no longer write to it).  Purely a cost measure: a run fork then does not copy a page merely because it *read* an
+    object that lives on it - page faults cost ~80 microseconds each in this sandbox and are what a run fork spends most
+    of its time on (measured: 5200 -> 2600 faults and 770 -> 480 ms per forked compile).  Immortal objects are never
+    freed, which is what the zygote's objects are anyway; program-visible behaviour does not change."""
+    import ctypes
+    import gc
+    if sys.version_info[:2] < (3, 12) or ctypes.sizeof(ctypes.c_void_p) != 8 or sys.byteorder != "little":
+        return 0
+    stack = gc.get_objects()  # taken before the book-keeping below exists, so that it is not made immortal itself
+    seen = set()
+    get_referents = gc.get_referents
+    while stack:
+        o = stack.pop()
+        if o is seen or o is stack:
+            continue
+        i = id(o)
+        if i in seen:
+            continue
+        seen.add(i)
+        stack.extend(get_referents(o))
+    u32 = ctypes.c_uint32
+    for i in seen:
+        u32.from_address(i).value = 0xFFFFFFFF
+    n = len(seen)
+    del seen, stack
+    return n
+
+
 def boot(repo_src):
     sys.path.insert(0, repo_src)
     synthetic_version = _ensure_version_module(repo_src)
@@ -106,8 +136,9 @@ def boot(repo_src):
     from sim import execrun, seams, client, oracle, helper  # noqa
     import gc
     gc.collect()
+    n_imm = _immortalize() if os.environ.get("VERIF_IMMORTALIZE", "1") != "0" else 0
     gc.freeze()
-    return {"package": pkg_file, "synthetic_version": synthetic_version}
+    return {"package": pkg_file, "synthetic_version": synthetic_version, "immortalized": n_imm}
 
 
 def _wall_guard(spec):
